@@ -1282,6 +1282,12 @@ class C09Machine(VMachine):
     def op_tensor(self, op):
         self.obs_fields(self.P, "", which=("tensor",))
 
+    def op_mode(self, op):
+        """torch.nn.Module.train(mode) / eval(): the training flag is not part of the meaning of a transformation - every
+        later change must be seen by the next call exactly as in training mode (inference after load / data_ in eval mode)."""
+        self.P.real.train(bool(op["training"]))
+        self.labels.add("mode=train" if op["training"] else "mode=eval")
+
     def op_clear_buffers(self, op):
         self.P.real.clear_buffers()
         for u in self.P.units:
@@ -1960,6 +1966,11 @@ class C09Machine(VMachine):
     @rule(which=st.sampled_from(["disp", "tensor"]))
     def r_fields(self, which):
         self.do({"op": which})
+
+    @precondition(lambda self: self.live())
+    @rule(training=st.sampled_from([False, False, True]))
+    def r_mode(self, training):
+        self.do({"op": "mode", "training": training})
 
     @precondition(lambda self: self.has(lambda u: u.nonrigid))
     @rule(data=st.data())
